@@ -1,7 +1,8 @@
 #!/bin/bash
-# store_round3.sh <Cxx> : confirm both round-3 changes of a property in /tmp/wt3/<Cxx> and store them as seeded/<Cxx>-E|F
-pid=$1; wt=/tmp/wt3/$pid
-for pair in A:E B:F; do
+# store_round3.sh <Cxx> : confirm both round-3 changes of a property in /tmp/wt${ROUND:-3}/<Cxx> and store them as seeded/<Cxx>-E|F (ROUND=3) or -G|H (ROUND=4)
+pid=$1; wt=/tmp/wt${ROUND:-3}/$pid
+pairs="A:E B:F"; [ "${ROUND:-3}" = 4 ] && pairs="A:G B:H"
+for pair in $pairs; do
   x=${pair%:*}; y=${pair#*:}
   [ -f $wt/_mutants/$x.diff ] || { echo "$pid/$x missing"; continue; }
   r=$(/verif/tools/confirm_mutant.sh $wt $x 2>&1 | tail -1)
@@ -14,10 +15,10 @@ for pair in A:E B:F; do
     cat > $d/meta.json <<EOM
 {
  "id": "$pid-$y",
- "round": 3,
+ "round": ${ROUND:-3},
  "breaks_property": "$pid",
  "files_changed": $files,
- "origin": "third round: written by an independent sub-agent given only the property text, a scratch worktree of /repo (HEAD 2c44203) and a short description of the four earlier changes to avoid; it saw nothing of /verif",
+ "origin": "round ${ROUND:-3}: written by an independent sub-agent given only the property text, a scratch worktree of /repo (HEAD 2c44203) and a short description of the earlier changes to avoid; it saw nothing of /verif",
  "needs_to_manifest": "see notes.md",
  "confirmed_by_me": {
   "date": "2026-09-27",
